@@ -1,4 +1,75 @@
-import ZckModel.Reader
-import ZckModel.Pred.Read
+/-
+C02 — No silent corruption: a successful read implies verified, correct content.
+What is proved about the model of `comp_read` / `zck_close` (for an arbitrary codec and hash):
+* for unit-decoded chunks, everything reads hand out is decoded content of chunks whose stored
+  bytes match their index checksum and that have their declared size (from C15);
+* `zck_close` succeeds only if no error occurred and (unless the uncompressed-source flag is set)
+  the running checksum of all body bytes consumed equals the data checksum of the header;
+* a chunk end succeeds only with consistent sizes and a matching checksum.
+The full statement (output = reference decoder's output whenever open/read/close succeed) is NOT a
+theorem here: it is the predicate `c02_ok`, evaluated against the independent reference decoder
+`Format.decode` on the implementation's output for every generated file and read schedule.
+-/
+import ZckModel.Props.C15
+
 namespace Zck.C02
+open Zck Zck.Format Zck.Reader
+
+/-- `zck_close` (read mode) reports success exactly when the context is error-free and the
+whole-data checksum over the consumed body bytes matches (skipped under flag 4, as the format says) -/
+theorem close_iff (H : HashFn) (c : Ctx) :
+    close H c = true ↔
+      c.err = false ∧ (flag4 c = true ∨ ∃ bs, c.fullHash = some bs ∧ H c.hdr.hashType bs = some c.hdr.dataDigest) := by
+  unfold close
+  cases he : c.err
+  · simp only [Bool.false_eq_true, ↓reduceIte, true_and]
+    cases h4 : flag4 c
+    · simp only [Bool.false_eq_true, ↓reduceIte, false_or]
+      cases hf : c.fullHash with
+      | none => simp
+      | some bs => simp
+    · simp
+  · simp
+
+/-- a chunk end that succeeds has consistent sizes and a matching checksum (any compression type) -/
+theorem chunk_end_verified (H : HashFn) (D : Decomp) (c : Ctx) (k : Nat) (ch : Chunk) (useDict : Bool) (c2 : Ctx)
+    (h : endDchunk H D c k ch useDict = .ok c2) :
+    (c.hdr.compType = 0 → ch.compLen = ch.len) ∧
+    ∃ bs d, c.chunkHash = some bs ∧ H c.hdr.chunkHashType bs = some d ∧
+      (if ch.compLen = 0 then zeros d.length else d) = ch.digest := by
+  unfold endDchunk at h
+  by_cases h0 : c.hdr.compType = 0
+  · simp only [h0, ↓reduceIte] at h
+    by_cases hne : ch.compLen ≠ ch.len
+    · simp [hne] at h
+    · simp only [hne, ↓reduceIte] at h
+      refine ⟨fun _ => by omega, ?_⟩
+      split at h
+      · cases h
+      · split at h
+        · cases h
+        · rename_i hv1 hv2
+          exact validateChunk_pos H c ch hv1 hv2
+  · simp only [h0, ↓reduceIte] at h
+    refine ⟨fun hh => absurd hh h0, ?_⟩
+    cases hD : D c.data (if useDict = true then c.dict else none) with
+    | none => simp [hD] at h
+    | some plain =>
+      simp only [hD] at h
+      by_cases hl : plain.length ≠ ch.len
+      · simp [hl] at h
+      · simp only [hl, ↓reduceIte] at h
+        split at h
+        · cases h
+        · split at h
+          · cases h
+          · rename_i hv1 hv2
+            exact validateChunk_pos H { c with data := [], dc := c.dc ++ plain } ch hv1 hv2
+
+/-- for unit-decoded chunks: whatever any sequence of reads returns is verified content (C15) -/
+theorem reads_return_verified (H : HashFn) (D : Decomp) (f : Bytes) (h : Hdr) (hz : h.compType ≠ 0) (ns : List Nat) :
+    ∃ G : List Bytes, (∀ p ∈ G, Good H D h p) ∧
+      ∃ rest, G.flatten = (C15.readCalls H D f (openCtx h) ns).1 ++ rest :=
+  C15.C15 H D f h hz ns
+
 end Zck.C02
